@@ -1465,6 +1465,15 @@ def _list(it, a, k, n):
     if not a:
         return VList([])
     v = it.need(a[0])
+    if isinstance(v, VSet) and v.items is None:
+        # list(<symbolic set>): some enumeration of its members (order unspecified) -- every element is a member,
+        # and the list is empty only if the set is
+        L = fresh_list(it, v.elemkind, "list_of_set")
+        i = z3.Int(it.ctx.fresh_name("k_los"))
+        it.ctx.assume(z3.ForAll([i], z3.Implies(z3.And(i >= 0, i < L.length), z3.Select(v.arr, z3.Select(L.arrs[0], i)))),
+                      "list(set):elements-are-members")
+        it.ctx.assume((L.length > 0) == truthy(v), "list(set):empty-iff-empty")
+        return L
     if isinstance(v, VList) and not v.concrete:
         return _list_copy(it, [v], {}, n)
     from .loops import iter_view
